@@ -184,6 +184,8 @@ pub fn enum_def(e: &EnumSpec, o: &EnumOpts) -> String {
         let ps: Vec<String> = e.macro_args.iter().map(|(n, k, _)| format!("${}:{}", n, k)).collect();
         let _ = writeln!(s, "macro_rules! mk_item {{ ({}) => {{", ps.join(", "));
     }
+    let name_is_fragment = e.macro_args.iter().any(|(n, k, _)| n == "n" && k == "ident");
+    let shown_name = if name_is_fragment { "$n" } else { o.name };
     let noise = |s: &mut String, slot: u8| {
         for (sl, t) in &e.noise {
             if *sl == slot {
@@ -236,7 +238,7 @@ pub fn enum_def(e: &EnumSpec, o: &EnumOpts) -> String {
         }
     }
     noise(&mut s, 4);
-    let _ = writeln!(s, "{} enum {}{}{} {{", e.vis, o.name, g.decl, g.where_clause);
+    let _ = writeln!(s, "{} enum {}{}{} {{", e.vis, shown_name, g.decl, g.where_clause);
     for (vi, v) in e.variants.iter().enumerate() {
         let mut docs = String::new();
         for d in &v.docs {
@@ -307,7 +309,7 @@ pub fn enum_def(e: &EnumSpec, o: &EnumOpts) -> String {
     }
     s.push_str("}\n");
     if !e.macro_args.is_empty() {
-        let args: Vec<&str> = e.macro_args.iter().map(|(_, _, a)| a.as_str()).collect();
+        let args: Vec<&str> = e.macro_args.iter().map(|(n, k, a)| if n == "n" && k == "ident" { o.name } else { a.as_str() }).collect();
         let _ = writeln!(s, "}} }}\nmk_item!({});", args.join(", "));
     }
     s
@@ -949,6 +951,9 @@ pub fn module_disc(e: &EnumSpec, o: &ModOpts) -> ModuleSrc {
     let g = generics(e, eo.t_bound, eo.t_inst);
     // (in the private case the whole glue sits inside `def`, next to the private type)
     src.push("pub mod def {");
+    if e.parse_err() {
+        src.push("pub fn mk_err(s: &str) -> vrt::MyErr { vrt::MyErr(s.to_string()) }");
+    }
     src.ranged("def", |s| s.push(&enum_def(e, &eo)));
     if !private {
         src.push("}");
@@ -1007,7 +1012,8 @@ pub fn module_disc(e: &EnumSpec, o: &ModOpts) -> ModuleSrc {
         src.tagged("    fn d_iter() -> Option<Vec<usize>> { Some(<D as strum::IntoEnumIterator>::iter().map(|d| d_idx(&d)).collect()) }", "C09:derive-EnumIter");
     }
     if has("EnumString") {
-        src.tagged("    fn d_from_str(s: &str) -> Option<Option<usize>> { Some(<D as ::core::str::FromStr>::from_str(s).ok().map(|d| d_idx(&d))) }", "C09:derive-EnumString");
+        // (the error type is pinned: D has no custom error unless one is passed through)
+        src.tagged("    fn d_from_str(s: &str) -> Option<Option<usize>> { let r: ::core::result::Result<D, strum::ParseError> = <D as ::core::str::FromStr>::from_str(s); Some(r.ok().map(|d| d_idx(&d))) }", "C09:derive-EnumString");
     }
     if has("Display") {
         src.push("    fn d_display(j: usize) -> Option<String> { Some(match j {");
@@ -1069,6 +1075,7 @@ pub fn enum_item(e: &EnumSpec, o: &EnumOpts) -> String {
         }
         e2.macro_args.clear();
         e = &e2;
+        // (an `$n:ident` fragment simply disappears: the item is emitted with its name written out)
     }
     let d = enum_def(e, o);
     match d.find("//@item\n") {
